@@ -67,11 +67,13 @@ DRV = r'''
 #include <cstdio>
 #include <cstring>
 #include <cstdint>
+#include <map>
+#include <string>
 #include "prog.emb.h"
 namespace G = ::emboss_generated_code;
 static unsigned long long g_n = 0, g_mism = 0; static int g_printed = 0;
 static void rep(const char *what, const char *name, long long v, long long t0, const char *more) {
-  ++g_mism; if (g_printed++ < 30) std::printf("MISMATCH %s %s v=%lld target_before=%lld %s\n", what, name, v, t0, more);
+  ++g_mism; static std::map<std::string, int> per_kind; if (per_kind[what]++ < 10 && g_printed++ < 200) std::printf("MISMATCH %s %s v=%lld target_before=%lld %s\n", what, name, v, t0, more);
 }
 #define VCHECK(NAME, S, C, TGT, TLO, THI, HAS_TREQ, TREQ_LO, HAS_VREQ, VREQ_LT, TBYTE) \
 static void chk_##NAME() { \
